@@ -235,6 +235,10 @@ fn main() {
             }
             Ok(lines)
         });
+        #[cfg(feature = "kytea")]
+        if k % 8 == 5 {
+            kytea_in_this_build(&mut ctx, seed, k);
+        }
         ctx.eval(1);
         match r {
             Ok(Ok(lines)) => {
@@ -259,4 +263,45 @@ fn main() {
     }
     let _ = trace.flush();
     ctx.finish();
+}
+
+/// A converted KyTea model (incl. files carrying the bogus type byte 0x04, which the converter skips) must
+/// score like the reference in every feature configuration.
+#[cfg(feature = "kytea")]
+fn kytea_in_this_build(ctx: &mut Ctx, seed: u64, k: u64) {
+    let mut rng = Rng::new(case_seed(seed, "C13kytea", k));
+    let (spec, texts) = vgen::kytea::gen_spec(&mut rng);
+    if (spec.char_ngrams.is_empty() || spec.type_ngrams.is_empty()) && !spec.empty_tries_present {
+        return;
+    }
+    let bytes = spec.emit();
+    let want = spec.expected();
+    let r = guard(|| -> Result<Option<String>, String> {
+        let mut cur = std::io::Cursor::new(&bytes);
+        let km = vaporetto::KyteaModel::read(&mut cur).map_err(|e| format!("read: {e}"))?;
+        let m = Model::try_from(km).map_err(|e| format!("convert: {e}"))?;
+        let p = Predictor::new(m, false).map_err(|e| format!("predictor: {e}"))?;
+        for t in &texts {
+            let refs = ref_scores(&want, t);
+            if refs.iter().any(|&s| s.abs() > i64::from(i32::MAX)) {
+                continue;
+            }
+            let mut s = Sentence::from_raw(to_string(t)).unwrap();
+            p.predict(&mut s);
+            let sc: Vec<i64> = s.boundary_scores().iter().map(|&x| i64::from(x)).collect();
+            if sc != refs {
+                return Ok(Some(format!("text {:?}: expected {:?}, observed {:?}", clip(&to_string(t), 60), &refs[..refs.len().min(30)], &sc[..sc.len().min(30)])));
+            }
+        }
+        Ok(None)
+    });
+    ctx.eval(1);
+    ctx.count("converted_kytea_models_scored_in_this_build", 1);
+    ctx.flag("converted_kytea_models_with_type_byte_0x04", spec.type_ngrams.iter().any(|g| g.0.contains(&'\u{4}')));
+    match r {
+        Ok(Ok(None)) => {}
+        Ok(Ok(Some(what))) => ctx.violation("C13:converted_kytea_model_scores_differ_from_reference_in_this_build", J::obj(vec![("features", J::s(features())), ("what", J::s(&what)), ("file_hex", J::hex(&bytes[..bytes.len().min(4096)]))])),
+        Ok(Err(e)) => ctx.violation("C13:kytea_conversion_failed_in_this_build", J::obj(vec![("features", J::s(features())), ("error", J::s(&e)), ("file_hex", J::hex(&bytes[..bytes.len().min(4096)]))])),
+        Err(p) => ctx.violation(&format!("C13:panicked_in_this_build:{}", panic_site(&p)), J::obj(vec![("features", J::s(features())), ("panic", J::s(&p)), ("what", J::s("converted KyTea model"))])),
+    }
 }
